@@ -1,34 +1,325 @@
-"""C07 — a returned shortest path is a real, optimal, geometrically continuous route (tracklib/core/network.py)."""
-import itertools
+"""C07 — a returned shortest path is a real, optimal, geometrically continuous route (tracklib/core/network.py).
+
+Every case is a SESSION on one `Network` object: a graph with node positions and edge polylines, how it is built
+(`ids`, `build`, `af`), and a sequence of calls (`ops`):
+    ["P", s, t, cut, d]   shortest_path(s, t, cut[, output_dict])
+    ["D", s, t|"-", cut, d]   shortest_distance(s, t | None, cut[, output_dict])
+    ["F", s, t|"-", cut, d]   run_routing_forward(s, t | None, cut[, output_dict])
+    ["B", t]              run_routing_backward(t) on the flags left by the last search
+A node argument is "3" (the id), "o3" (the network's Node object) or "f3" (a fresh Node object with that id); "scribble": every returned track is modified by the caller afterwards;
+`d` = 1: the session's output_dict is passed. Cases without "ops" query every ordered pair with `shortest_path`
+(s-major) on the same object; "seq": "euler" = a sequence of `shortest_path` calls in which every ordered pair of
+queries occurs consecutively."""
+import itertools, os, tempfile
 from fractions import Fraction
-from engine import Prop
+from engine import Prop, fbits, bitsf
 from props import netcommon as nc
 
 
-def cutval(tokn):
-    return None if tokn == "none" else Fraction(tokn)
+TOL = Fraction(1, 10**9)
 
 
-def within(d, c):
-    return d is not None and (c is None or d <= c)
+def cutval(tokn, fl=False):
+    """cut-off token -> exact number (float cases: the token is the repr of the float handed to tracklib)"""
+    if tokn == "none":
+        return None
+    return Fraction(float(tokn)) if fl else Fraction(tokn)
 
 
-def optimal_walks(n, edges, d, s, t, cap=2):
-    """number (capped) of walks of permitted arcs from s to t whose weight is d[s][t], as edge sequences"""
-    tight = {}
-    for (u, v, w, i) in nc.arcs(edges):
-        if d[s][u] is not None and d[s][v] is not None and d[s][u] + w == d[s][v]:
-            tight.setdefault(u, []).append(v)
-    count = 0
-    stack = [(s, 0)]
-    while stack and count < cap:
-        u, depth = stack.pop()
-        if u == t and depth > 0:
-            count += 1
-        if depth < 2 * n + 1:
-            for v in tight.get(u, []):
-                stack.append((v, depth + 1))
-    return count
+def cutpy(tokn, fl=False):
+    return float(tokn) if fl else nc.pynum(tokn)
+
+
+def within(d, c, fl=False):
+    """the true distance d does not exceed the cut-off c (float cases: clearly, by more than the rounding of the sums)"""
+    if d is None:
+        return False
+    if c is None:
+        return True
+    return d <= c - TOL * max(1, abs(c)) if fl else d <= c
+
+
+def same(a, b, fl=False):
+    """equal numbers (float cases: up to the rounding of the sums, 1e-9 relative)"""
+    return abs(a - b) <= TOL * max(1, abs(a), abs(b)) if fl else a == b
+
+
+def optimal_walks(n, edges, d, s, t, cap=2, fl=False):
+    """min(2, number of walks of permitted arcs from s to t != s whose weight is d[s][t]) (walks as edge sequences;
+    zero-weight cycles give infinitely many). Linear: in the sub-graph of the tight arcs that lie on some optimal walk
+    to t, there are two walks iff some node has two outgoing arcs or t has one."""
+    if d[s][t] is None:
+        return 0
+    tight = [(u, v) for (u, v, w, i) in nc.arcs(edges)
+             if d[s][u] is not None and d[s][v] is not None and same(d[s][u] + w, d[s][v], fl)]
+    fwd, bwd = {}, {}
+    for (u, v) in tight:
+        fwd.setdefault(u, []).append(v)
+        bwd.setdefault(v, []).append(u)
+
+    def closure(start, adj):
+        seen, stack = {start}, [start]
+        while stack:
+            for y in adj.get(stack.pop(), []):
+                if y not in seen:
+                    seen.add(y)
+                    stack.append(y)
+        return seen
+    R = closure(s, fwd) & closure(t, bwd)
+    if t not in R or s not in R:
+        return 0
+    out = {}
+    for (u, v) in tight:
+        if u in R and v in R:
+            out[u] = out.get(u, 0) + 1
+    if out.get(t, 0) > 0 or any(k > 1 for k in out.values()):
+        return 2
+    return 1
+
+
+def de_bruijn_pairs(q):
+    """a sequence over range(q) of length q*q+1 in which every ordered pair (a, b) occurs consecutively exactly once
+    (Eulerian circuit of the complete digraph with loops)"""
+    nxt = [0] * q
+    stack = [0]
+    circuit = []
+    while stack:
+        v = stack[-1]
+        if nxt[v] < q:
+            w = nxt[v]
+            nxt[v] += 1
+            stack.append(w)
+        else:
+            circuit.append(stack.pop())
+    return circuit[::-1]
+
+
+def idx(a):
+    return int(a.lstrip("of"))
+
+
+def ops_of(case):
+    if "ops" in case:
+        return case["ops"]
+    n = case["n"]
+    cut = case.get("cut", "none")
+    pairs = [(s, t) for s in range(n) for t in range(n)]
+    if case.get("seq") == "euler":
+        pairs = [pairs[k] for k in de_bruijn_pairs(len(pairs))]
+    return [["P", str(s), str(t), cut, 0] for (s, t) in pairs]
+
+
+def eff_order(case):
+    """node insertion order of the network as built (the nodes are created by addEdge in the lazy mode)"""
+    if case.get("build") not in ("lazy", "reader"):
+        return list(case["order"])
+    out = []
+    for (_, s, t, _, _) in nc.expand(case):
+        for v in (s, t):
+            if v not in out:
+                out.append(v)
+    return out + [v for v in case["order"] if v not in out]
+
+
+def build_calls(case):
+    """the addNode / addEdge calls that build the network of a case, with the coordinates of every Node object handed over:
+    {"pre": [[v,x,y]…] addNode calls before the edges, "ends": per edge [sx,sy,tx,ty], "post": addNode calls after}.
+    recoord: a Node object given for an id that is already registered carries OTHER coordinates (the first registration
+    must win)."""
+    build = case.get("build", "plain")
+    pos = case["pos"]
+    edges = nc.expand(case)
+    seen = set()
+
+    def coord(v):
+        if v in seen and case.get("recoord"):
+            return [pos[v][0] + 17, pos[v][1] - 5]
+        seen.add(v)
+        return list(pos[v])
+    pre, ends, post = [], [], []
+    if build in ("plain", "fresh"):
+        pre = [[v] + coord(v) for v in case["order"]]
+    for k, (i, s, t, w, o) in enumerate(edges):
+        if build == "reader":
+            l = case["lines"][k]
+            seen.update((s, t))
+            ends.append(list(l[0]) + list(l[-1]))
+        elif build == "plain":
+            ends.append(list(pos[s]) + list(pos[t]))
+        else:
+            cs = coord(s)
+            ends.append(cs + coord(t))
+    if build in ("lazy", "reader"):
+        post = [[v] + coord(v) for v in case["order"]]
+    return {"pre": pre, "ends": ends, "post": post}
+
+
+def build_net(mods, case):
+    """the real Network of a case.
+    ids:   "int" node ids 0..n-1, edge ids as given | "str" node ids 'A','B',… (same order), edge ids 'e<id>'
+    build: "plain" every node added first (in `order`), the same Node objects given to addEdge |
+           "fresh" as plain, but addEdge is given fresh Node objects with the same ids (what NetworkReader does) |
+           "lazy"  nodes are created by addEdge, then addNode is called for every node (registers the isolated ones) |
+           "reader" the edges are written to a CSV file (WKT geometries, str ids, weight and direction columns) and read by
+                   NetworkReader.readFromFile (which computes abs_curv on every geometry: an analytical feature); then addNode
+                   for every node. Needs >= 2 vertices per edge and polylines joining the node positions.
+    af:    every edge geometry with at least one vertex carries an analytical feature
+    recoord: see build_calls"""
+    Network, Node, Edge, Track, Obs, ENUCoords, ObsTime = mods
+    build = case.get("build", "plain")
+    strids = case.get("ids", "int") == "str" or build == "reader"
+    nid = (lambda v: chr(65 + v)) if strids else (lambda v: v)
+    eid = (lambda i: "e%d" % i) if strids else (lambda i: i)
+    pos = case["pos"]
+    mk = lambda v: Node(nid(v), ENUCoords(pos[v][0], pos[v][1], 0))
+    mkc = lambda v, x, y: Node(nid(v), ENUCoords(x, y, 0))
+    calls = build_calls(case)
+    if build == "reader":
+        from tracklib.io import NetworkReader, NetworkFormat
+        fmt = NetworkFormat({"name": "c07", "pos_edge_id": 0, "pos_source": 1, "pos_target": 2, "pos_wkt": 3, "pos_weight": 4,
+                             "pos_direction": 5, "separator": ";", "header": 1, "srid": "ENU"})
+        with tempfile.TemporaryDirectory() as tmp:
+            path = os.path.join(tmp, "network.csv")
+            with open(path, "w") as fh:
+                fh.write("edge;source;target;wkt;weight;direction\n")
+                for k, (i, s, t, w, o) in enumerate(nc.expand(case)):
+                    fh.write("%s;%s;%s;LINESTRING(%s);%r;%d\n" % (eid(i), nid(s), nid(t), ", ".join("%r %r" % (float(x), float(y)) for x, y in case["lines"][k]),
+                                                               float(nc.pynum(w)), o))
+            net = NetworkReader.readFromFile(path, fmt, verbose=False)
+        for (v, x, y) in calls["post"]:
+            net.addNode(mkc(v, x, y))
+        return net, nid, eid, mk
+    net = Network()
+    nodes = {}
+    for (v, x, y) in calls["pre"]:
+        nodes[v] = mkc(v, x, y)
+        net.addNode(nodes[v])
+    for k, (i, s, t, w, o) in enumerate(nc.expand(case)):
+        tr = Track([Obs(ENUCoords(x, y, 0), ObsTime()) for (x, y) in case["lines"][k]])
+        if case.get("af") and len(case["lines"][k]) > 0:
+            tr.createAnalyticalFeature("speed", 1.0)
+        e = Edge(eid(i), tr)
+        e.orientation = o
+        e.weight = nc.pynum(w)
+        if build == "plain":
+            net.addEdge(e, nodes[s], nodes[t])
+        else:
+            sx, sy, tx, ty = calls["ends"][k]
+            net.addEdge(e, mkc(s, sx, sy), mkc(t, tx, ty))
+    for (v, x, y) in calls["post"]:
+        net.addNode(mkc(v, x, y))
+    return net, nid, eid, mk
+
+
+# ------------------------------------------------------------------------------------ geometry
+def geometry_ext(rng, n, edges, box=3, loose=False):
+    """node positions on the integer lattice (some coincide); per edge a polyline from its source's position to its
+    target's with 1-5 vertices: straight, bent, with repeated consecutive vertices, coming back over an end point or
+    passing over another node's position, closed loops. loose: the polylines ignore the node positions (0-4 vertices)."""
+    pos = []
+    for v in range(n):
+        if pos and rng.random() < 0.2:
+            pos.append(list(rng.choice(pos)))
+        else:
+            pos.append([rng.randint(0, box), rng.randint(0, box)])
+    pt_ = lambda: [rng.randint(-1, box + 1), rng.randint(-1, box + 1)]
+    lines = []
+    for (_, s, t, _, _) in edges:
+        if loose:
+            lines.append([pt_() for _ in range(rng.choice([0, 1, 2, 2, 3, 4]))])
+            continue
+        ps, pt = list(pos[s]), list(pos[t])
+        r = rng.random()
+        if ps == pt and r < 0.3:
+            l = [ps]
+        elif r < 0.45:
+            l = [ps, pt]
+        elif r < 0.6:
+            l = [ps, pt_(), pt]
+        elif r < 0.7:
+            l = [ps, pt_(), pt_(), pt]
+        elif r < 0.8:                    # a repeated consecutive vertex
+            l = rng.choice([[ps, ps, pt], [ps, pt, pt], [ps, ps, pt, pt]])
+            if rng.random() < 0.5:
+                m = pt_()
+                l = [ps, m, m, pt]
+        elif r < 0.9:                    # comes back over an end point / passes over a node
+            m = pt_()
+            l = rng.choice([[ps, m, ps, pt], [ps, pt, m, pt], [ps, list(rng.choice(pos)), pt], [ps, pt, ps, pt]])
+        else:
+            m = pt_()
+            l = [ps, m, pt_(), m, pt]
+        lines.append([list(p) for p in l])
+    return pos, lines
+
+
+def add_parallels(rng, g):
+    """parallel edges of EQUAL weight (same ends, possibly stored the other way round with the mirrored orientation)"""
+    edges = g["edges"]
+    if not edges:
+        return g
+    used = {e[0] for e in edges}
+    for _ in range(rng.randint(1, 3)):
+        i, s, t, w, o = rng.choice(edges)
+        j = max(used) + 1 + rng.randrange(3)
+        used.add(j)
+        if rng.random() < 0.5:
+            s, t, o = t, s, -o
+        edges.insert(rng.randrange(len(edges) + 1), [j, s, t, w, o])
+    return g
+
+
+def random_ops(rng, n, d, fl=False):
+    """a sequence of calls: single queries, the same query twice, a path after a distance-only search and vice versa,
+    backward passes for several targets after one search, an unreachable target after a reachable one, source = target,
+    cut-offs below / at / above distances"""
+    cuts = [nc.tok(c) for c in nc.cuts_for(d) if c >= 0] or ["0"]
+    if fl:      # float weights: cut-offs clearly between / beyond the distinct distances (never within rounding of one)
+        ds = sorted({x for row in d for x in row if x is not None})
+        cuts = [repr(float((a + b) / 2)) for a, b in zip(ds, ds[1:]) if b - a > Fraction(1, 10**6) * max(1, b)] + [repr(float(ds[-1]) * 1.5 + 1.0)]
+    form = lambda v: rng.choice(["", "", "", "o", "f"]) + str(v)
+    cut = lambda: "none" if rng.random() < 0.55 else rng.choice(cuts)
+    ud = lambda: 1 if rng.random() < 0.3 else 0
+    node = lambda: rng.randrange(n)
+    reach = [(s, t) for s in range(n) for t in range(n) if s != t and d[s][t] is not None]
+    unreach = [(s, t) for s in range(n) for t in range(n) if d[s][t] is None]
+    ops = []
+    for _ in range(rng.randint(2, 6)):
+        r = rng.random()
+        s, t = node(), node()
+        if reach and rng.random() < 0.6:
+            s, t = rng.choice(reach)
+        if r < 0.25:
+            ops.append(["P", form(s), form(t), cut(), ud()])
+        elif r < 0.35:                                    # the same query by both entry points
+            c, u = cut(), ud()
+            pair = [["P", form(s), form(t), c, u], ["D", form(s), form(t), c, u]]
+            rng.shuffle(pair)
+            ops += pair
+        elif r < 0.5:                                     # distance-only search, then paths to several targets
+            ops.append(rng.choice([["D", form(s), "-", cut(), ud()], ["F", form(s), "-", cut(), ud()],
+                                   ["F", form(s), form(t), cut(), ud()], ["D", form(s), form(t), cut(), ud()]]))
+            for _ in range(rng.randint(1, 3)):
+                ops.append(["B", form(rng.choice([t, node(), node()]))])
+        elif r < 0.6 and unreach:                         # an unreachable target after a reachable one (and back)
+            s2, t2 = rng.choice(unreach)
+            ops.append(["P", form(s), form(t), cut(), ud()])
+            ops.append(["P", form(rng.choice([s2, s])), form(t2), cut(), ud()])
+            ops.append(["B", form(t)])
+        elif r < 0.7:                                     # source = target
+            ops.append(["P", form(s), form(s), cut(), ud()])
+            ops.append(["B", form(t)])
+        elif r < 0.8 and d[s][t] is not None:             # cut-off just below / at the true distance
+            c = d[s][t] - rng.choice([Fraction(1, 2), 0, Fraction(1, 2), 1])
+            ctok = nc.tok(max(c, 0)) if not fl else repr(float(d[s][t]) * rng.choice([0.5, 0.999, 1.001, 2.0]))
+            ops.append(["P", form(s), form(t), ctok, ud()])
+            ops.append(["B", form(node())])
+        elif r < 0.9:
+            ops.append(["P", form(s), form(t), "none", 0])
+            ops.append(["P", form(t), form(s), "none", 0])
+        else:
+            ops.append(["B", form(t)])
+    return ops
 
 
 class P(Prop):
@@ -40,35 +331,84 @@ class P(Prop):
         (M, "TV.C07.path_is_walk", "any path returned by shortest_path(s,t,cut): node list from s to t, consecutive nodes joined by the recorded edge in a permitted direction; geometry = chain of those edges' polylines along the travel, junctions once, ending at pos t; weights sum to the label of t"),
         (M, "TV.C07.path_optimal", "for shortest_path(s,t) the recorded edges' weights sum to the true shortest distance"),
         (M, "TV.C07.path_optimal_cut", "with a cut-off not below the true distance the returned path still realises the true distance"),
+        (M, "TV.C07.path_cut_sound", "with ANY cut-off (also below the true distance) a returned path is a real route with chained geometry whose weights sum to the value shortest_distance(s,t,cut) reports; that value is >= the true distance and equal to it unless it exceeds the cut-off"),
         (M, "TV.C07.geometry_chained", "if every edge polyline runs from its source's to its target's position, the returned geometry = pos s followed by the used edges' polylines, each oriented along the travel and without its first vertex (junctions once); starts at pos s, ends at pos t"),
         (M, "TV.C07.unreachable_none", "no permitted walk => None; t = s => None (as coded)"),
         (M, "TV.C07.reachable_path", "a reachable target other than the source always gets a path"),
         (M, "TV.C07.never_diverges", "the loop `while node.antecedent != \"\"` always terminates (within n+1 iterations) on the flags left by the forward pass"),
+        (M, "TV.C07.track_operators_agree", "run_routing_backward written on tracks with the C04 model's operators (Track(), addObs, copy, reverse, `>` = Seq.dropFirst, `+` = Seq.concat) returns the list-level model's node list and points, as a track without analytical features (uses TV.C04.concat_spec / dropFirst_spec)"),
+        (M, "TV.C07.geometry_chained_track", "T3 for the Track built by the C04 operators: points = pos s followed by the used edges' polylines along the travel, each minus its first vertex; starts at pos s, ends at pos t; no analytical feature — for arbitrary polylines (repeated vertices, 1/2-vertex geometries, SENS_INVERSE, parallel edges)"),
+        (M, "TV.C07.path_optimal_track", "through the C04 operators: never diverges; None iff unreachable or t = s; a returned track is the chain of a route whose weights sum to the true distance"),
+        (M, "TV.C07.session_path_fresh", "shortest_path at any point of a sequence of calls on one Network = shortest_path on a fresh network (flags reset; node by id or object; output_dict or not), and the label left on the target is shortest_distance's value"),
+        (M, "TV.C07.session_dist_fresh", "shortest_distance(s,t,cut) at any point of a session = on a fresh network"),
+        (M, "TV.C07.session_path_dist_same_state", "shortest_path and shortest_distance with the same arguments leave the same node flags and write the same output_dict entries"),
+        (M, "TV.C07.session_outputs_ok", "in ANY sequence of shortest_path / shortest_distance / run_routing_forward / run_routing_backward calls on one network, the backward loop terminates and every returned track is the chain of a real route whose weights sum to the label of its last node"),
+        (M, "TV.C07.backward_settled_optimal", "after a search stopped at another target or by a cut-off, run_routing_backward(t) for any node t != s settled before the stop returns a route realising the true distance"),
+        (M, "TV.C07.output_dict_entries_sound", "every entry (s,u) -> y written to output_dict by shortest_path / any search is the true distance s->u and does not exceed the cut-off"),
+        (M, "TV.C07.next_edges_as_built", "for a network built by addEdge calls: EDGES = the edges in insertion order; NEXT_EDGES[u] looked up in EDGES = every edge that may be left from u, a two-way self-loop twice; the relaxation loop over it = the loop over the model's nextEdges (each edge once)"),
+        (M, "TV.C07.first_registration_wins", "a node's position is the coordinate of its first registration (addNode / addEdge with other Node objects of the same id do not change it); addEdge registers both ends"),
+        (M, "TV.C07.backward_after_full_search", "after a search without target and cut-off (shortest_distance(s) / run_routing_forward(s)), run_routing_backward(t) = None iff t unreachable or t = s, else a route s->t realising the true distance"),
     ]
     partial = []
-    open_statements = ["Track.copy/reverse/__gt__/__add__ are modelled as list operations on the vertex list (not proved about track.py)",
-                       "with a cut-off below the true distance shortest_path may return a tentative (non-optimal) path: outside the statement, not checked"]
-    modelled = ("Network.run_routing_forward (as for C06) and run_routing_backward as it is after fix 9d0d428 (walk of antecedent / antecedent_edge, "
-                "polyline reversed when e.source != node, appended minus its first vertex, final reverse, path = node ids reversed), shortest_path; "
-                "Track.copy/reverse/__gt__/__add__ as list operations on the vertex list")
-    trusted = ["Track.copy (deepcopy), Track.reverse, Track.__gt__(int), Track.__add__ are modelled as list copy / reverse / drop / append on the vertices",
-               "priority_dict is modelled as extract-min by (priority, node id)"]
-    rule = ("the C06 graph space (all edge lists of length <= 2 on <= 3 nodes in quick, + all 3-edge multisets in thorough; random to 12 nodes / 40 edges) with random "
-            "node positions on an integer lattice (some coincident) and 1-4-vertex edge polylines from the source's to the target's position; every ordered pair. "
-            "non-trivial = some pair s != t is joined by a walk; tags count zero-weight edges, edges traversed against their stored direction, ties")
+    open_statements = ["Track.copy is modelled as the identity on (points, feature table): that the returned track shares no Obs / coordinate object with the network is not a theorem; the harness checks it by moving the points of every returned track (scribble stream) and validating the later answers of the session",
+                       "float rounding of sums of non-dyadic weights is outside the theorems (weights: a linearly ordered additive commutative monoid; the correspondence streams use integers and dyadic rationals, exact in float arithmetic)"]
+    modelled = ("Network.addNode / addEdge (NODES with first registration winning, EDGES, NEXT_EDGES filled incrementally; proved to give the model's adjacency); "
+                "Network.run_routing_forward (as for C06) with __correctInputNode (node by id / Node object) and __resetFlags on the flags left by earlier searches; "
+                "run_routing_backward (walk of antecedent / antecedent_edge, polyline reversed when e.source != node, appended minus its first vertex, final reverse, "
+                "path = node ids reversed) written with the Track operators of the C04 model (Track(), addObs, copy, reverse, `>`, `+` with its feature-name test) "
+                "and proved equal to the list-level walk; shortest_path, shortest_distance (pair and list form), output_dict, and sequences of these calls on one Network object")
+    trusted = ["Track.copy (copy.deepcopy) is the identity on the model's immutable values",
+               "priority_dict is modelled as extract-min by (priority, node id) (C06 proves the explicit heap equal to it)"]
+    rule = ("the C06 graph space (all edge lists of length <= 2 on <= 3 nodes in quick, + all 3-edge multisets in thorough; random to 12 nodes / 40 edges, parallel edges of equal and of "
+            "different weight) with node positions on an integer lattice (some coincident) and edge polylines of 1-5 vertices from the source's to the target's position (straight, bent, repeated "
+            "consecutive vertices, coming back over an end point, over another node, closed loops); a 'loose' stream whose polylines ignore the node positions (0-4 vertices; geometry compared "
+            "with the model only). Networks built with int or str ids (NODES order, stored positions, NEXT_EDGES and edge ends compared with the model's addNode/addEdge), with the caller's Node objects / fresh Node objects per edge / nodes created by addEdge / Node objects of an already registered id carrying other coordinates / through a CSV file read by NetworkReader.readFromFile (str ids, abs_curv feature on every geometry); edge geometries "
+            "with or without an analytical feature; in a third of the random cases the caller moves the points of every track it is given (aliasing with the network would show in later answers). Calls: every ordered pair by shortest_path on ONE object; for the same enumerated graphs a sequence in which every ordered pair "
+            "of queries is consecutive; random sessions mixing shortest_path, shortest_distance (pair / list), run_routing_forward, run_routing_backward (several targets after one search, before "
+            "any search), nodes by id / own object / fresh object, output_dict, source = target, unreachable after reachable, cut-offs below / at / above the distances. A float stream (kind sess-float): weights = polyline lengths / multiples of 0.1 / uniform reals, model instantiated at Float and compared bit for bit, "
+            "oracle in exact rationals with 1e-9 relative tolerance. "
+            "non-trivial = some call returns a path; tags count zero-weight edges, edges traversed against their stored direction, ties, op kinds")
 
     def setup(self):
         self.mods = nc.import_mods()
+        # a pool worker inherits the parent's list of generated cases (millions of small objects in the thorough tier): a
+        # full garbage collection that happens to start inside `time_limit` then costs seconds of CPU and looks like an
+        # endless loop. The inherited objects are never garbage: keep the collector off them.
+        import gc
+        gc.freeze()
 
     # ---------------------------------------------------------------- generators
     def exhaustive_scopes(self, tier):
-        s = ["all edge lists (ordered) of length 0..2 on 1..3 nodes, weights {0,1,2}, orientations {-1,0,1} (8067 graphs), one random lattice geometry each, all ordered pairs"]
+        s = ["all edge lists (ordered) of length 0..2 on 1..3 nodes, weights {0,1,2}, orientations {-1,0,1} (8067 graphs), one random lattice geometry each, all ordered pairs by shortest_path on one Network object",
+             "the same 8067 graphs: a sequence of shortest_path calls on one object in which EVERY ordered pair of queries (s1,t1),(s2,t2) is consecutive (82 calls for 3 nodes)"]
         if tier == "thorough":
             s.append("all multisets of 3 edges on 1..3 nodes over the same alphabet (100482 multigraphs), edge / node insertion order shuffled, one random geometry each")
         return s
 
-    def with_geometry(self, rng, g):
-        pos, lines = nc.random_geometry(rng, g["n"], nc.expand(g))
+    def with_geometry(self, rng, g, ext=False):
+        if ext:
+            loose = rng.random() < 0.12
+            pos, lines = geometry_ext(rng, g["n"], nc.expand(g), loose=loose)
+            if loose:
+                g["loose"] = 1
+            r = rng.random()
+            if r < 0.25:
+                g["ids"] = "str"
+            r = rng.random()
+            if r < 0.25:
+                g["build"] = "fresh"
+            elif r < 0.45:
+                g["build"] = "lazy"
+            elif r < 0.6 and not loose and all(len(l) >= 2 for l in lines):
+                g["build"] = "reader"
+            if rng.random() < 0.2:
+                g["af"] = 1
+            if rng.random() < 0.3:
+                g["scribble"] = 1
+            if g.get("build") in ("fresh", "lazy") and rng.random() < 0.3:
+                g["recoord"] = 1
+        else:
+            pos, lines = nc.random_geometry(rng, g["n"], nc.expand(g))
         g["pos"] = pos
         g["lines"] = lines
         return g
@@ -80,65 +420,183 @@ class P(Prop):
                 for e in nc.enum_graphs(n, k, ordered=True):
                     order = list(range(n)); rng.shuffle(order)
                     out.append(self.with_geometry(rng, {"kind": "ex", "n": n, "order": order, "e": list(e)}))
+                    if True:
+                        out.append(self.with_geometry(rng, {"kind": "ex-seq", "seq": "euler", "n": n, "order": order, "e": list(e)}))
         if tier == "thorough":
             for n in (1, 2, 3):
                 for e in nc.enum_graphs(n, 3, ordered=False):
                     e = list(e); rng.shuffle(e)
                     order = list(range(n)); rng.shuffle(order)
                     out.append(self.with_geometry(rng, {"kind": "ex3", "n": n, "order": order, "e": e}))
-        nsmall, nbig = (1500, 400) if tier == "quick" else (20000, 5000)
+        nsmall, nbig, nsess, nfloat = (1500, 400, 4000, 1500) if tier == "quick" else (20000, 5000, 100000, 30000)
         for _ in range(nsmall):
-            out.append(self.with_geometry(rng, dict(nc.random_graph(rng, small=True), kind="rnd-small")))
+            g = dict(nc.random_graph(rng, small=True), kind="rnd-small")
+            if rng.random() < 0.3:
+                add_parallels(rng, g)
+            out.append(self.with_geometry(rng, g, ext=True))
         for _ in range(nbig):
             g = nc.random_graph(rng, nmax=rng.choice([5, 8, 12]), emax=rng.choice([8, 20, 40]))
             g["kind"] = "rnd"
             if rng.random() < 0.3:
+                add_parallels(rng, g)
+            if rng.random() < 0.3:
                 allc = nc.cuts_for(nc.floyd_warshall(g["n"], g["edges"]))
                 g["cut"] = nc.tok(rng.choice(allc))
-            out.append(self.with_geometry(rng, g))
+            out.append(self.with_geometry(rng, g, ext=True))
+        for _ in range(nsess):
+            if rng.random() < 0.85:
+                g = nc.random_graph(rng, small=True)
+                if g["n"] == 1 and rng.random() < 0.7:
+                    g = nc.random_graph(rng, nmax=5, emax=8)
+            else:
+                g = nc.random_graph(rng, nmax=rng.choice([5, 8]), emax=rng.choice([8, 16]))
+            g["kind"] = "sess"
+            if rng.random() < 0.3:
+                add_parallels(rng, g)
+            g["ops"] = random_ops(rng, g["n"], nc.floyd_warshall(g["n"], g["edges"]))
+            out.append(self.with_geometry(rng, g, ext=True))
+        for _ in range(nfloat):
+            g = nc.random_graph(rng, small=True) if rng.random() < 0.7 else nc.random_graph(rng, nmax=rng.choice([5, 8, 12]), emax=rng.choice([8, 20]))
+            g["kind"] = "sess-float"
+            g["float"] = 1
+            if rng.random() < 0.3:
+                add_parallels(rng, g)
+            self.with_geometry(rng, g, ext=True)
+            self.float_weights(rng, g)
+            d = nc.floyd_warshall(g["n"], g["edges"])
+            if rng.random() < 0.6:
+                g["ops"] = random_ops(rng, g["n"], d, fl=True)
+            out.append(g)
         return out
+
+    def float_weights(self, rng, g):
+        """float weights whose sums round: the length of the edge's polyline (what NetworkReader takes when the file has no
+        weight column), multiples of 0.1 (0.1 + 0.2 > 0.3 in floats: near-ties), uniform reals; some zero"""
+        style = rng.random()
+        for k, e in enumerate(g["edges"]):
+            l = g["lines"][k]
+            if style < 0.4:
+                w = float(sum(((l[i][0] - l[i + 1][0]) ** 2 + (l[i][1] - l[i + 1][1]) ** 2) ** 0.5 for i in range(len(l) - 1)))
+            elif style < 0.75:
+                w = rng.choice([0.0, 0.1, 0.1, 0.2, 0.3, 0.3, 0.7, 1.1])
+            else:
+                w = rng.choice([0.0, rng.random(), rng.random() * 10, rng.uniform(0, 1e-3)])
+            e[3] = w
 
     def describe(self, case):
         edges = nc.expand(case)
         n = case["n"]
         d = nc.floyd_warshall(n, edges)
         ties = any(s != t and d[s][t] is not None and optimal_walks(n, edges, d, s, t) > 1 for s in range(n) for t in range(n)) if n <= 4 else "?"
+        ops = ops_of(case)
+        par = len({(min(e[1], e[2]), max(e[1], e[2]), str(e[3])) for e in edges}) < len(edges)
+        rep = any(l[i] == l[i + 1] for l in case["lines"] for i in range(len(l) - 1))
         return {"kind": case["kind"], "n": n if n <= 4 else "5-8" if n <= 8 else "9-12",
                 "m": len(edges) if len(edges) <= 3 else "4-10" if len(edges) <= 10 else "11-40",
                 "zero_weight": any(nc.num(e[3]) == 0 for e in edges), "reverse_only_edge": any(e[4] < 0 for e in edges),
-                "tie": ties, "line_sizes": "".join(sorted({str(len(l)) for l in case["lines"]})), "cut": case.get("cut", "none") != "none"}
+                "tie": ties, "line_sizes": "".join(sorted({str(len(l)) for l in case["lines"]})),
+                "cut": any(o[0] != "B" and o[3] != "none" for o in ops),
+                "ids": case.get("ids", "int"), "build": case.get("build", "plain"), "loose": bool(case.get("loose")), "af": bool(case.get("af")), "scribble": bool(case.get("scribble")), "recoord": bool(case.get("recoord")), "float_weights": bool(case.get("float")),
+                "parallel_equal_weight": par, "repeated_vertex": rep,
+                "op_kinds": "".join(sorted({o[0] for o in ops})),
+                "node_forms": "".join(sorted({(a[0] if a[0] in "of" else "i") for o in ops for a in o[1:3] if isinstance(a, str) and a not in ("-", "none")})),
+                "nops": len(ops) if len(ops) <= 3 else "4-9" if len(ops) <= 9 else "10-20" if len(ops) <= 20 else ">20"}
 
     def nontrivial(self, case):
         n = case["n"]
         d = nc.floyd_warshall(n, nc.expand(case))
-        return any(d[s][t] is not None for s in range(n) for t in range(n) if s != t)
+        last = None
+        for o in ops_of(case):
+            if o[0] == "B":
+                if last is not None and last != idx(o[1]) and d[last][idx(o[1])] is not None:
+                    return True
+                continue
+            last = idx(o[1])
+            if o[0] == "P" and idx(o[1]) != idx(o[2]) and d[idx(o[1])][idx(o[2])] is not None:
+                return True
+        return False
 
     # ---------------------------------------------------------------- implementation
+    def render(self, net, case, trk, t, nid, inv, einv):
+        node = net.NODES[nid(t)]
+        lab = node.poids
+        label = "none" if lab == -1 else nc.tok(Fraction(lab))
+        if trk is None:
+            return {"p": "none", "label": label}
+        path = [inv.get(x, repr(x)) for x in trk.path]
+        xy = [[nc.tok(Fraction(o.position.getX())), nc.tok(Fraction(o.position.getY()))] for o in trk]
+        # the edges recorded by the forward pass (node.antecedent_edge), read along the returned path
+        used = []
+        for _ in range(len(path) - 1):
+            if node.antecedent == "":
+                break
+            used.append(einv.get(node.antecedent_edge, repr(node.antecedent_edge)))
+            node = node.antecedent
+        res = {"p": {"path": path, "xy": xy, "edges": used[::-1], "af": list(trk.getListAnalyticalFeatures())}, "label": label}
+        if case.get("scribble"):
+            # what a caller may do with a track it was given: move its points, empty its node list. If the track shared
+            # objects with the network (edge geometries, node coordinates) the later answers of the session show it.
+            for o in trk:
+                o.position.setX(o.position.getX() + 1000)
+                o.position.setY(-7)
+            del trk.path[:]
+        return res
+
     def impl(self, case):
         n = case["n"]
-        cut = case.get("cut", "none")
-        kw = {} if cut == "none" else {"cut": nc.pynum(cut)}
-        res = []
-        with nc.time_limit(3 if n <= 4 else 20):
-            net = nc.build_network(self.mods, case, with_geom=True)
-            for s in range(n):
-                for t in range(n):
-                    trk = net.shortest_path(s, t, **kw)
-                    if trk is None:
-                        res.append("none")
+        Network, Node, Edge, Track, Obs, ENUCoords, ObsTime = self.mods
+        ops = ops_of(case)
+        out = []
+        with nc.time_limit(5 if n <= 4 and len(ops) <= 20 else 20):
+            net, nid, eid, mk = build_net(self.mods, case)
+            inv = {nid(v): v for v in range(n)}
+            einv = {eid(e[0]): e[0] for e in nc.expand(case)}
+            od = {}
+            # the network as addNode / addEdge left it
+            built = {"next": [[einv.get(i, repr(i)) for i in net.NEXT_EDGES[nid(v)]] for v in range(n)],
+                     "pos": [[nc.tok(Fraction(net.NODES[nid(v)].coord.getX())), nc.tok(Fraction(net.NODES[nid(v)].coord.getY()))] for v in range(n)],
+                     "order": [inv.get(k, repr(k)) for k in net.NODES.keys()],
+                     "ends": [[einv.get(k, repr(k)), inv.get(e.source.id, repr(e.source.id)), inv.get(e.target.id, repr(e.target.id)), e.orientation,
+                               e.source is net.NODES[e.source.id] and e.target is net.NODES[e.target.id]] for k, e in net.EDGES.items()]}
+
+            def arg(a):
+                if a == "-":
+                    return None
+                if a[0] == "o":
+                    return net.NODES[nid(int(a[1:]))]
+                if a[0] == "f":
+                    return mk(int(a[1:]))
+                return nid(int(a))
+
+            for op in ops:
+                kind = op[0]
+                if kind == "B":
+                    try:
+                        trk = net.run_routing_backward(arg(op[1]))
+                    except AttributeError:
+                        out.append({"op": "B", "err": "attr"})
                         continue
-                    path = list(trk.path)
-                    xy = [[nc.tok(Fraction(o.position.getX())), nc.tok(Fraction(o.position.getY()))] for o in trk]
-                    # the edges recorded by the forward pass (node.antecedent_edge), read along the returned path
-                    used = []
-                    node = net.NODES[t]
-                    for _ in range(len(path) - 1):
-                        if node.antecedent == "":
-                            break
-                        used.append(node.antecedent_edge)
-                        node = node.antecedent
-                    res.append({"path": path, "xy": xy, "edges": used[::-1]})
-        return {"res": res}
+                    out.append(dict(self.render(net, case, trk, idx(op[1]), nid, inv, einv), op="B"))
+                    continue
+                kw = {}
+                if op[3] != "none":
+                    kw["cut"] = cutpy(op[3], bool(case.get("float")))
+                if op[4]:
+                    kw["output_dict"] = od
+                if kind == "P":
+                    trk = net.shortest_path(arg(op[1]), arg(op[2]), **kw)
+                    out.append(dict(self.render(net, case, trk, idx(op[2]), nid, inv, einv), op="P"))
+                elif kind == "D":
+                    v = net.shortest_distance(arg(op[1]), arg(op[2]), **kw)
+                    if op[2] == "-":
+                        out.append({"op": "D", "vals": ["none" if x >= 1e299 else nc.tok(Fraction(x)) for x in v]})
+                    else:
+                        out.append({"op": "D", "val": "none" if v == -1 else nc.tok(Fraction(v))})
+                else:
+                    net.run_routing_forward(arg(op[1]), arg(op[2]), **kw)
+                    out.append({"op": "F"})
+            dct = sorted([inv.get(k[0], -1), inv.get(k[1], -1), nc.tok(Fraction(v))] for k, v in od.items())
+        return {"ops": out, "dict": dct, "net": built}
 
     # ---------------------------------------------------------------- model
     def requests(self, case):
@@ -146,63 +604,174 @@ class P(Prop):
         flat = lambda pts: ",".join("%d,%d" % (x, y) for (x, y) in pts) if pts else "e"
         pos = ";".join(flat([p]) for p in case["pos"]) if case["pos"] else "_"
         lines = ";".join(flat(l) for l in case["lines"]) if case["lines"] else "_"
-        return ["C07.paths %d %s %s %s %s" % (case["n"], nc.edges_token(edges), pos, lines, case.get("cut", "none"))]
+        a = lambda x: x.replace("f", "o")
+        fl = bool(case.get("float"))
+        ct = lambda c: c if (c == "none" or not fl) else fbits(float(c))
+        ops = []
+        for o in ops_of(case):
+            if o[0] == "B":
+                ops.append("B:%s" % a(o[1]))
+            else:
+                ops.append("%s:%s:%s:%s:%d" % (o[0], a(o[1]), a(o[2]), ct(o[3]), 1 if o[4] else 0))
+        etok = nc.edges_token(edges) if not fl else (";".join("%d,%d,%d,%s,%d" % (i, u, v, fbits(w), o) for (i, u, v, w, o) in edges) or "_")
+        calls = build_calls(case)
+        ctok = lambda l: ";".join(",".join(str(x) for x in c) for c in l) if l else "_"
+        return ["C07.%sbuild %d %s %s %s %s" % ("f" if fl else "", case["n"], ctok(calls["pre"]), etok, ctok(calls["ends"]), ctok(calls["post"])),
+                "C07.%ssession %d %s %s %s %s %d %s" % ("f" if fl else "", case["n"], ",".join(str(v) for v in eff_order(case)), etok, pos, lines,
+                                                       1 if (case.get("af") or case.get("build") == "reader") else 0, ";".join(ops) if ops else "_")]
 
     def decode(self, case, replies):
-        r = replies[0]
-        if r == "bad-request":
+        r = replies[1]
+        if r == "bad-request" or replies[0] == "bad-request":
             raise ValueError("bad-request")
+        nx, ps, od_ = replies[0].split("#")
+        built = {"next": [[] if l == "e" else [int(x) for x in l.split(",")] for l in ([] if nx == "_" else nx.split(";"))],
+                 "pos": [l.split(",") for l in ([] if ps == "_" else ps.split(";"))],
+                 "order": [] if od_ == "_" else [int(x) for x in od_.split(",")]}
+        outs, dct = r.split("#")
+        ops = ops_of(case)
+        fl = bool(case.get("float"))
+        num = (lambda x: x if x == "none" else nc.tok(Fraction(bitsf(x)))) if fl else (lambda x: x)
+        items = [] if outs == "_" else outs.split("|")
+        if len(items) != len(ops):
+            raise ValueError("%d outputs for %d ops" % (len(items), len(ops)))
         res = []
-        for item in ([] if r == "_" else r.split("|")):
-            if item in ("none", "diverge"):
-                res.append(item)
-                continue
-            nodes, pts = item.split(":")
-            p = [] if pts == "_" else pts.split(",")
-            res.append({"path": [int(x) for x in nodes.split(",")], "xy": [[p[i], p[i + 1]] for i in range(0, len(p), 2)]})
-        return {"res": res}
+        for op, item in zip(ops, items):
+            if item == "attr":
+                res.append({"op": "B", "err": "attr"})
+            elif item == "ok":
+                res.append({"op": "F"})
+            elif item.startswith("d="):
+                res.append({"op": "D", "val": num(item[2:])})
+            elif item.startswith("l="):
+                res.append({"op": "D", "vals": [] if item[2:] == "_" else [num(x) for x in item[2:].split(",")]})
+            else:
+                p, label = item.split("@")
+                label = num(label)
+                if p in ("none", "diverge", "features"):
+                    res.append({"op": op[0], "p": p, "label": label})
+                else:
+                    nodes, pts = p.split(":")
+                    q = [] if pts == "_" else pts.split(",")
+                    res.append({"op": op[0], "label": label,
+                                "p": {"path": [int(x) for x in nodes.split(",")], "xy": [[q[i], q[i + 1]] for i in range(0, len(q), 2)]}})
+        entries = [] if dct == "_" else [e.split(",") for e in dct.split(";")]
+        return {"ops": res, "dict": sorted([int(e[0]), int(e[1]), num(e[2])] for e in entries), "net": built}
 
     def compare(self, case, impl_out, model_out):
+        """exact agreement with the model, except where the property leaves freedom — there the implementation's answer is
+        validated by the oracle instead (a different but legal tie-break must not be an alarm):
+          * several optimal walks: another optimal route (same label);
+          * a path requested for a node the search did not run to (stopped at another target, or cut-off below the node's
+            distance): nothing is required but that a returned path be a real route weighing its label (tentative labels
+            depend on the order in which equal labels are popped);
+          * shortest_distance beyond the cut-off: a tentative label;
+          * output_dict of a search stopped at a target: which nodes at the target's distance were recorded before it."""
         if "err" in impl_out:
             return None if impl_out["err"] == "err:Skipped" else "implementation failed: %s" % impl_out["err"]
-        n = case["n"]
-        a, b = impl_out["res"], model_out["res"]
+        a, b = impl_out["ops"], model_out["ops"]
         if len(a) != len(b):
             return "impl has %d results, model %d" % (len(a), len(b))
-        edges = d = None
-        for k, (x, y) in enumerate(zip(a, b)):
-            s, t = divmod(k, n)
-            if isinstance(x, dict) and isinstance(y, dict) and x["path"] == y["path"] and x["xy"] == y["xy"]:
+        n = case["n"]
+        ops = ops_of(case)
+        fl = bool(case.get("float"))
+        memo = {}
+        nx, ny = impl_out["net"], model_out["net"]
+        for key in ("next", "pos", "order"):
+            if nx[key] != ny[key]:
+                return "network as built, %s: impl=%s model=%s" % (key, nx[key], ny[key])
+        want = [[e[0], e[1], e[2], e[4], True] for e in nc.expand(case)]
+        if nx["ends"] != want:
+            return "network as built: edges (id, source, target, orientation, ends are the registered nodes) %s, given %s" % (nx["ends"], want)
+
+        def dist():
+            if "d" not in memo:
+                memo["e"] = nc.expand(case)
+                memo["d"] = nc.floyd_warshall(n, memo["e"])
+            return memo["e"], memo["d"]
+        last = None
+        for k, (op, x, y) in enumerate(zip(ops, a, b)):
+            bad = "op %d %s: impl=%s model=%s" % (k, op, x, y)
+            if op[0] != "B":
+                last = (idx(op[1]), None if op[2] == "-" else idx(op[2]), cutval(op[3], fl))
+            if "p" not in x or "p" not in y:
+                if x == y:
+                    continue
+                if op[0] == "D" and x.keys() == y.keys():
+                    edges, d = dist()
+                    s0, t0, c0 = last
+                    if "val" in x:           # free only beyond the cut-off
+                        if d[s0][t0] is not None and not within(d[s0][t0], c0, fl) and x["val"] != "none":
+                            continue
+                    elif len(x["vals"]) == len(y["vals"]) == n:
+                        order = eff_order(case)
+                        if all(xv == yv or (d[s0][v] is not None and not within(d[s0][v], c0, fl)) for v, xv, yv in zip(order, x["vals"], y["vals"])):
+                            continue
+                return bad
+            px, py = x["p"], y["p"]
+            if isinstance(px, dict) and px.get("af"):
+                return "op %d %s: the returned track has analytical features %s, the model's has none" % (k, op, px["af"])
+            agree = (px == py) or (isinstance(px, dict) and isinstance(py, dict) and px["path"] == py["path"] and px["xy"] == py["xy"])
+            if agree and x["label"] == y["label"]:
                 continue
-            if x == y:
+            if not last:
+                return bad
+            edges, d = dist()
+            s0, t0, c0 = last
+            t = idx(op[2]) if op[0] == "P" else idx(op[1])
+            if s0 == t or d[s0][t] is None:
+                return bad
+            complete = (t0 is None or t0 == t) and within(d[s0][t], c0, fl)
+            if px == "none":
+                if complete:
+                    return bad
                 continue
-            # a different answer is legal only where the property leaves freedom (several optimal walks):
-            # there the implementation's path is validated by the oracle instead
-            if edges is None:
-                edges = nc.expand(case)
-                d = nc.floyd_warshall(n, edges)
-            if isinstance(x, dict) and isinstance(y, dict) and self.check_pair(case, edges, d, s, t, x) is None \
-                    and optimal_walks(n, edges, d, s, t) > 1:
+            if not isinstance(px, dict):
+                return bad
+            msg, total = self.check_route(case, edges, s0, t, px)
+            if msg is not None or x["label"] == "none" or not same(Fraction(x["label"]), total, fl):
+                return bad
+            if not complete:
                 continue
-            return "pair (%d,%d): impl=%s model=%s" % (s, t, x, y)
+            if same(total, d[s0][t], fl) and (fl or x["label"] == y["label"]) and optimal_walks(n, edges, d, s0, t, fl=fl) > 1:
+                continue
+            return bad
+        if impl_out["dict"] != model_out["dict"]:
+            bad = "output_dict: impl=%s model=%s" % (impl_out["dict"], model_out["dict"])
+            edges, d = dist()
+            A = {(e[0], e[1]): e[2] for e in impl_out["dict"]}
+            B = {(e[0], e[1]): e[2] for e in model_out["dict"]}
+            free = set()
+            for op in ops:
+                if op[0] != "B" and op[4] and op[2] != "-":
+                    s0, t0 = idx(op[1]), idx(op[2])
+                    if d[s0][t0] is not None:
+                        free |= {(s0, v) for v in range(n) if d[s0][v] is not None and same(d[s0][v], d[s0][t0], fl)}
+            for key, v in A.items():
+                if not (0 <= key[0] < n and 0 <= key[1] < n) or d[key[0]][key[1]] is None or not same(Fraction(v), d[key[0]][key[1]], fl):
+                    return bad
+            if any(key not in free for key in set(A) ^ set(B)):
+                return bad
         return None
 
     # ---------------------------------------------------------------- oracle
-    def check_pair(self, case, edges, d, s, t, x):
-        """x = {"path", "xy", "edges"} returned for (s,t), reachable: walk, optimal, geometry chained"""
+    def check_route(self, case, edges, s, t, x):
+        """x = {"path", "xy", "edges"} returned for a search from s and the target t: (what is wrong | None, total weight).
+        A real walk from s to t along the recorded edges, each traversable in that direction; geometry = the position of s
+        followed by those edges' polylines, each oriented along the travel and without its first vertex."""
         byid = {e[0]: e for e in edges}
         lines = {e[0]: case["lines"][k] for k, e in enumerate(edges)}
         pos = case["pos"]
         path, used = x["path"], x["edges"]
         if not path or path[0] != s or path[-1] != t:
-            return "path %s does not go from %d to %d" % (path, s, t)
+            return "path %s does not go from %d to %d" % (path, s, t), None
         if len(used) != len(path) - 1:
-            return "path %s has %d recorded edges" % (path, len(used))
+            return "path %s has %d recorded edges" % (path, len(used)), None
         total = 0
         options = []     # per step, the polyline(s) oriented along the direction of travel
         for i, eid in enumerate(used):
             if eid not in byid:
-                return "recorded edge %r does not exist" % (eid,)
+                return "recorded edge %r does not exist" % (eid,), None
             _, es, et, w, o = byid[eid]
             a, b = path[i], path[i + 1]
             opts = []
@@ -211,11 +780,12 @@ class P(Prop):
             if o <= 0 and et == a and es == b:
                 opts.append(lines[eid][::-1])
             if not opts:
-                return "step %d->%d of path %s: edge %d (source %d, target %d, orientation %d) cannot be traversed in that direction" % (a, b, path, eid, es, et, o)
+                return "step %s->%s of path %s: edge %d (source %d, target %d, orientation %d) cannot be traversed in that direction" % (a, b, path, eid, es, et, o), None
             total += nc.num(w)
             options.append(opts)
-        if total != d[s][t]:
-            return "path %s via edges %s weighs %s, the shortest distance is %s" % (path, used, nc.tok(total), nc.tok(d[s][t]))
+        if case.get("loose") or case.get("recoord"):
+            return None, total      # the polylines do not join the node positions / a node was given several positions: no chain to
+                                    # speak of (the geometry is compared with the model only)
         got = [[Fraction(px), Fraction(py)] for px, py in x["xy"]]
         ok = False
         for choice in itertools.islice(itertools.product(*options), 64):
@@ -227,9 +797,53 @@ class P(Prop):
                 break
         if not ok:
             return "geometry %s of path %s via edges %s is not the chain of the edges' polylines along the direction of travel (expected %s)" % (
-                x["xy"], path, used, want)
+                x["xy"], path, used, want), None
         if got[0] != list(pos[s]) or got[-1] != list(pos[t]):
-            return "geometry %s does not start at the source's position %s and end at the target's %s" % (x["xy"], pos[s], pos[t])
+            return "geometry %s does not start at the source's position %s and end at the target's %s" % (x["xy"], pos[s], pos[t]), None
+        return None, total
+
+    def check_pair(self, case, edges, d, s, t, x):
+        """x returned for (s,t), reachable, search complete for t: walk, optimal, geometry chained"""
+        msg, total = self.check_route(case, edges, s, t, x)
+        if msg:
+            return msg
+        fl = bool(case.get("float"))
+        if not same(total, d[s][t], fl):
+            return "path %s via edges %s weighs %s, the shortest distance is %s" % (x["path"], x["edges"], float(total) if fl else nc.tok(total), float(d[s][t]) if fl else nc.tok(d[s][t]))
+        return None
+
+    def check_result(self, case, edges, d, s, t, c, complete, o, what):
+        """the result `o` of a path request to t after a search from s with cut-off c; complete: the search was not
+        stopped at another target (it ran to t, or to exhaustion / the cut-off)"""
+        x = o["p"]
+        fl = bool(case.get("float"))
+        lab = None if o["label"] == "none" else Fraction(o["label"])
+        if s == t:
+            return None           # the statement is about targets other than the source
+        if d[s][t] is None:
+            if x != "none":
+                return "%s returns %s but no permitted walk exists" % (what, x)
+            return None
+        if complete and within(d[s][t], c, fl):
+            if not isinstance(x, dict):
+                return "%s returns %s but the target is reachable at distance %s" % (what, x, nc.tok(d[s][t]))
+            m = self.check_pair(case, edges, d, s, t, x)
+            if m:
+                return "%s: %s" % (what, m)
+            if lab is None or not same(lab, d[s][t], fl):
+                return "%s: the weights of the path sum to %s but the distance reported (NODES[target].poids) is %s" % (what, nc.tok(d[s][t]), o["label"])
+            return None
+        # cut-off below the true distance, or a backward pass after a search stopped at another target: the statement does
+        # not require a path, nor an optimal one; but "a returned path is a real route": a walk, chained, its weights
+        # summing to the value reported for the target
+        if isinstance(x, dict):
+            m, total = self.check_route(case, edges, s, t, x)
+            if m:
+                return "%s: %s" % (what, m)
+            if lab is None or not same(lab, total, fl):
+                return "%s: the weights of the path sum to %s but the value reported for the target (NODES[target].poids) is %s" % (what, nc.tok(total), o["label"])
+        elif x != "none":
+            return "%s returns %s" % (what, x)
         return None
 
     def spec(self, case, out):
@@ -240,27 +854,56 @@ class P(Prop):
         n = case["n"]
         edges = nc.expand(case)
         d = nc.floyd_warshall(n, edges)
-        c = cutval(case.get("cut", "none"))
-        if len(out["res"]) != n * n:
-            return "%d results for %d pairs" % (len(out["res"]), n * n)
-        for k, x in enumerate(out["res"]):
-            s, t = divmod(k, n)
-            if s == t:
-                continue          # the statement is about targets other than the source
-            if d[s][t] is None:
-                if x != "none":
-                    return "shortest_path(%d,%d) returns %s but no permitted walk exists" % (s, t, x)
-            elif within(d[s][t], c):
-                if not isinstance(x, dict):
-                    return "shortest_path(%d,%d) returns %s but the target is reachable at distance %s" % (s, t, x, nc.tok(d[s][t]))
-                m = self.check_pair(case, edges, d, s, t, x)
+        ops = ops_of(case)
+        if len(out["ops"]) != len(ops):
+            return "%d results for %d calls" % (len(out["ops"]), len(ops))
+        last = None
+        for k, (op, o) in enumerate(zip(ops, out["ops"])):
+            pre = "call %d: " % k if ("ops" in case or case.get("seq")) else ""
+            if op[0] == "B":
+                if last is None:
+                    continue      # backward pass before any search: nothing is stated
+                if "err" in o:
+                    return "%srun_routing_backward(%s) after a search raised %s" % (pre, op[1], o["err"])
+                s0, t0, c0 = last
+                t = idx(op[1])
+                m = self.check_result(case, edges, d, s0, t, c0, t0 is None or t0 == t, o,
+                                      "%srun_routing_backward(%d) after the search from %d (target %s, cut %s)" % (pre, t, s0, t0, "none" if c0 is None else nc.tok(c0)))
                 if m:
-                    return "shortest_path(%d,%d): %s" % (s, t, m)
+                    return m
+                continue
+            s, t, c = idx(op[1]), (None if op[2] == "-" else idx(op[2])), cutval(op[3], bool(case.get("float")))
+            last = (s, t, c)
+            if op[0] == "P":
+                m = self.check_result(case, edges, d, s, t, c, True, o,
+                                      "%sshortest_path(%d,%d%s)" % (pre, s, t, "" if c is None else ",cut=%s" % nc.tok(c)))
+                if m:
+                    return m
         return None
 
     # ---------------------------------------------------------------- shrinking / search
     def shrink(self, case):
+        ops = case.get("ops")
+        if ops is not None:
+            for k in range(len(ops)):
+                yield dict(case, ops=ops[:k] + ops[k + 1:])
+            for k, o in enumerate(ops):
+                simp = [o[0]] + [a.lstrip("of") if isinstance(a, str) and a[:1] in "of" else a for a in o[1:]]
+                if o[0] != "B" and simp[4]:
+                    simp[4] = 0
+                if simp != o:
+                    yield dict(case, ops=ops[:k] + [simp] + ops[k + 1:])
+        for key in ("ids", "build", "af", "scribble", "recoord"):
+            if key in case:
+                yield {k: v for k, v in case.items() if k != key}
+        if case.get("seq") == "euler":
+            c = {k: v for k, v in case.items() if k != "seq"}
+            yield c
+            c = dict(c, ops=ops_of(case))
+            yield c
         for c in nc.shrink_graph(case):
+            if ops is not None and c["n"] != case["n"]:
+                continue          # the calls name the nodes
             yield c
         if "edges" in case:
             for k, l in enumerate(case["lines"]):
